@@ -824,11 +824,13 @@ func C19(c *Ctx) {
 	r.Rule("C19-c", "the grammar literal and the code blocks are emitted by ranging over grammar.Rules (a slice), never over a map")
 	r.Rule("C19-d", "a list that a function builds under a map range and returns unsorted (the components of StronglyConnectedComponents, the cycles of FindCyclesInSCC) is in map-iteration order: every loop over such a list is in an automatic order-insensitive class or is a tabled instance whose effect signature is unchanged - what one iteration stores is not read by another")
 	r.Rule("C19-t", "runtime template: the map ranges of every variant are order-insensitive (state cloning, discarding, expected-list de-duplication followed by sort)")
+	r.Rule("C19-e", "no state survives a build: no function of packages ast and builder stores into a package-level variable of its package (assignment, element or field store, ++/--, or a storing method such as Store / LoadOrStore / Put on it) - a cache or counter kept there makes what a later build in the same process writes depend on the builds before it")
 
 	g := c.G()
 	if g == nil {
 		return
 	}
+	c19NoStateAcrossBuilds(c, g)
 	isGen := func(fn string) bool { return strings.HasSuffix(fn, "/pigeon.go") || strings.HasSuffix(fn, "_test.go") }
 	sites := mapRanges(g, []string{"", "ast", "builder"}, isGen)
 	r.Analysed["map_ranges_generator"] = len(sites)
